@@ -6,19 +6,6 @@ namespace SetOps
 variable {w : Nat} {L R : Type}
 open Tree Pfx
 
-/-- `a.or(b)` -/
-def orE {α : Type} (a b : Option α) : Option α :=
-  match a with
-  | some x => some x
-  | none => b
-
-/-- entries of `B` whose prefix covers `p`, in list order -/
-def coverK (B : KL w R) (p : Pfx w) : KL w R := B.filter (fun b => b.2.1.contains p)
-
-/-- the longest-prefix match of `p` among the entries `B` (a pre-order entry list: covering
-entries appear by increasing length, so the last one is the longest) -/
-def lpmK (B : KL w R) (p : Pfx w) : Lpm w R := ((coverK B p).getLast?).map (fun b => (b.2.1, b.2.2))
-
 theorem coverK_append (B1 B2 : KL w R) (p : Pfx w) : coverK (B1 ++ B2) p = coverK B1 p ++ coverK B2 p := by
   simp [coverK, List.filter_append]
 
@@ -32,18 +19,6 @@ theorem lpmK_nil (p : Pfx w) : lpmK ([] : KL w R) p = none := rfl
 
 theorem lpmK_of_cover_nil {B : KL w R} {p : Pfx w} (h : coverK B p = []) : lpmK B p = none := by
   unfold lpmK; rw [h]; rfl
-
-/-- difference, specification: the entries of `A` whose key is not stored in `B`, each annotated
-with its longest-prefix match in `B` (or `base`, the match inherited from above `B`) -/
-def diffS (A : KL w L) (B : KL w R) (base : Lpm w R) : List (DItem w L R) :=
-  A.filterMap (fun a =>
-    match lookupK B (keyOf a) with
-    | some _ => none
-    | none => some ⟨a.2.1, (a.1, a.2.2), orE (lpmK B a.2.1) base⟩)
-
-/-- covering difference, specification: the entries of `A` not covered by any prefix stored in `B` -/
-def covDiffS (A : KL w L) (B : KL w R) : List (DItem w L R) :=
-  A.filterMap (fun a => if (coverK B a.2.1).isEmpty then some ⟨a.2.1, (a.1, a.2.2), none⟩ else none)
 
 theorem diffS_append (A1 A2 : KL w L) (B : KL w R) (base : Lpm w R) :
     diffS (A1 ++ A2) B base = diffS A1 B base ++ diffS A2 B base := by
